@@ -2,6 +2,7 @@ package rules
 
 import (
 	"fmt"
+	"go/types"
 	"strconv"
 	"strings"
 
@@ -20,9 +21,15 @@ import (
 // the function's own buffer in program order, then the returned String().
 
 type shaper struct {
-	f  *FC
-	ks *ir.Normalizer
-	p  *ir.Printer
+	f   *FC
+	ks  *ir.Normalizer
+	p   *ir.Printer
+	lin []linPiece // pieces of the last Template call in left-to-right order
+}
+
+type linPiece struct {
+	lit  string  // literal text (uncollapsed) or ""
+	term ir.Term // dynamic term or nil
 }
 
 func newShaper(f *FC) *shaper {
@@ -51,9 +58,15 @@ func collapseWS(s string) string {
 	return b.String()
 }
 
-func (s *shaper) lit(v string) string { return strconv.Quote(collapseWS(v)) }
+func (s *shaper) lit(v string) string {
+	s.lin = append(s.lin, linPiece{lit: v})
+	return strconv.Quote(collapseWS(v))
+}
 
-func (s *shaper) dyn(t ir.Term) string { return "⟨" + s.p.S(t) + "⟩" }
+func (s *shaper) dyn(t ir.Term) string {
+	s.lin = append(s.lin, linPiece{term: t})
+	return "⟨" + s.p.S(t) + "⟩"
+}
 
 func isKey(t ir.Term, key string) (*ir.App, bool) { return isCallTo(t, key) }
 
@@ -157,7 +170,9 @@ func (s *shaper) str(t ir.Term) string {
 			}
 		case stringsPath + ".Concat":
 			if len(x.Args) == 2 {
-				return "join(" + s.str(x.Args[0]) + "; " + s.p.S(x.Args[1]) + ")"
+				sep := s.str(x.Args[0])
+				s.lin = append(s.lin, linPiece{term: x.Args[1]})
+				return "join(" + sep + "; " + s.p.S(x.Args[1]) + ")"
 			}
 		case stringsPath + ".EncloseWith":
 			if len(x.Args) == 3 {
@@ -252,6 +267,7 @@ func (s *shaper) Template(name string) (string, *ir.Func) {
 		return "", nil
 	}
 	s.p = ir.NewPrinter(s.f.Path)
+	s.lin = nil
 	nf := s.ks.Func(fn)
 	if sq, ok := nf.(*ir.Seq); ok {
 		bufs := map[string]bool{}
@@ -265,4 +281,76 @@ func (s *shaper) Template(name string) (string, *ir.Func) {
 		return fmt.Sprintf("%s ⇒%s", body, s.str(sq.Ret)), fn
 	}
 	return s.str(nf), fn
+}
+
+// OperandsInClosure lists the dynamic pieces of `name` that apply one of the function's emitter callbacks (a
+// function-typed parameter) to AST children and lie inside a function literal opened by the emitter's own text.
+func (s *shaper) OperandsInClosure(name string) []string {
+	if _, fn := s.Template(name); fn == nil {
+		return nil
+	}
+	var res []string
+	depth := 0        // brace depth inside emitted text
+	var funcAt []int  // brace depths at which an emitted func literal body was opened
+	pendingFunc := false
+	for _, pc := range s.lin {
+		if pc.term == nil {
+			txt := pc.lit
+			for i := 0; i < len(txt); i++ {
+				switch {
+				case strings.HasPrefix(txt[i:], "func"):
+					pendingFunc = true
+				case txt[i] == '{':
+					depth++
+					if pendingFunc {
+						funcAt = append(funcAt, depth)
+						pendingFunc = false
+					}
+				case txt[i] == '}':
+					if len(funcAt) > 0 && funcAt[len(funcAt)-1] == depth {
+						funcAt = funcAt[:len(funcAt)-1]
+					}
+					depth--
+				}
+			}
+			continue
+		}
+		if len(funcAt) == 0 {
+			continue
+		}
+		// does the term apply a function-typed parameter (emitter callback)?
+		uses := false
+		ir.Walk(pc.term, func(t ir.Term) bool {
+			switch x := t.(type) {
+			case *ir.App:
+				if p, ok := x.Fun.(*ir.Param); ok {
+					if isExprEmitter(p.Obj.Type()) {
+						uses = true
+					}
+				}
+				if fr, ok := x.Fun.(*ir.FuncRef); ok && fr.Key == slicePath+".Map" && len(x.Args) == 2 {
+					if p, ok := x.Args[0].(*ir.Param); ok {
+						if isExprEmitter(p.Obj.Type()) {
+							uses = true
+						}
+					}
+				}
+			}
+			return !uses
+		})
+		if uses {
+			res = append(res, s.p.S(pc.term))
+		}
+	}
+	return res
+}
+
+// isExprEmitter: func(Expr) string — the callback that emits a source expression.
+func isExprEmitter(t types.Type) bool {
+	sig, ok := t.Underlying().(*types.Signature)
+	if !ok || sig.Params().Len() != 1 {
+		return false
+	}
+	n, ok := sig.Params().At(0).Type().(*types.Named)
+	return ok && (n.Obj().Name() == "Expr" || n.Obj().Name() == "Block" || n.Obj().Name() == "Stmt")
 }
